@@ -241,9 +241,14 @@ func initState(cfg *Config, script Script, noClone bool) (*State, []Event, error
 			return nil, nil, fmt.Errorf("start %d: %w", i, err)
 		}
 	}
-	// route what Start emitted, in index order
+	// route what Start emitted, in index order (drain everything first: a node must never process
+	// a message while it still holds undrained output, see local())
+	outs := make([][]Msg, cfg.N)
 	for i := 0; i < cfg.N; i++ {
-		s.routeOut(i, s.node(i).Rec.Drain(), &evs)
+		outs[i] = s.node(i).Rec.Drain()
+	}
+	for i := 0; i < cfg.N; i++ {
+		s.routeOut(i, outs[i], &evs)
 	}
 	s.inject(1, &evs)
 	return s, evs, nil
@@ -346,6 +351,9 @@ func localKey(nd *Node, kind byte, m *Msg, ch int) [32]byte {
 }
 
 func (s *State) local(nd *Node, kind byte, m *Msg, ch int, f func(nd *Node, evs *[]Event) *Result) *localRes {
+	if len(nd.Rec.Out) != 0 {
+		panic("dkgsys: local step on a node with undrained output (would corrupt the memoisation)")
+	}
 	if s.NoClone {
 		nd.Invalidate()
 		r := &localRes{node: nd}
@@ -600,6 +608,14 @@ func (s *State) deviate(z int, m Msg) (now, later []Msg) {
 	case "vec":
 		return []Msg{mk(MutateVector(body, d.Var, s.Cfg))}, nil
 	case "sha":
+		switch d.Var {
+		case "latewrong": // a well-formed wrong share, one phase late
+			return nil, []Msg{mk(MutateScalar(body, 1, "wrong"))}
+		case "thenlatewrong": // the honest share now, a well-formed wrong one in the next phase
+			return []Msg{m}, []Msg{mk(MutateScalar(body, 1, "wrong"))}
+		case "dupwrong": // the honest share followed by a wrong one
+			return []Msg{m, mk(MutateScalar(body, 1, "wrong"))}, nil
+		}
 		return []Msg{mk(MutateScalar(body, 1, d.Var))}, nil
 	case "ans":
 		switch d.Var {
@@ -609,6 +625,12 @@ func (s *State) deviate(z int, m Msg) (now, later []Msg) {
 		case "othercomplainer": // answer re-addressed to another participant
 			body[1] = byte((int(body[1]) + 1) % s.Cfg.N)
 			return []Msg{mk(body)}, nil
+		case "latewrong":
+			return nil, []Msg{mk(MutateScalar(body, 2, "wrong"))}
+		case "dupwrong":
+			return []Msg{m, mk(MutateScalar(body, 2, "wrong"))}, nil
+		case "wrongthenright":
+			return []Msg{mk(MutateScalar(append([]byte{}, body...), 2, "wrong")), m}, nil
 		}
 		return []Msg{mk(MutateScalar(body, 2, d.Var))}, nil
 	case "cmp":
@@ -681,6 +703,11 @@ func MutateVector(body []byte, v string, cfg *Config) []byte {
 			body[i] = 0
 		}
 		body[1] = 0xc0
+	case "nong2cancel": // first coefficient + T, last coefficient - T with T outside G2: every single
+		// coefficient is outside G2 but their sum (= the public share of index 0) is not affected
+		a, b := CancelNonG2(body[1:97], body[len(body)-96:])
+		copy(body[1:97], a)
+		copy(body[len(body)-96:], b)
 	case "swapcoef":
 		if cfg.T >= 1 {
 			a := append([]byte{}, body[1:97]...)
@@ -761,14 +788,14 @@ func Grammar(cfg *Config) []Deviation {
 	honest := cfg.Honest()
 	for _, z := range cfg.Byz {
 		if cfg.IsDealer(z) {
-			for _, v := range []string{"omit", "late", "dup", "empty", "tagonly", "short", "long", "badflags", "infbit", "nonreduced", "offcurve", "nong2", "nong2last", "otherpoly", "infa0", "swapcoef"} {
+			for _, v := range []string{"omit", "late", "dup", "empty", "tagonly", "short", "long", "badflags", "infbit", "nonreduced", "offcurve", "nong2", "nong2last", "nong2cancel", "otherpoly", "infa0", "swapcoef"} {
 				g = append(g, Deviation{z, "vec", v})
 			}
 			for _, r := range honest {
-				for _, v := range []string{"omit", "late", "dup", "empty", "tagonly", "wrongtag", "short", "long", "zero", "ger", "allff", "wrong"} {
+				for _, v := range []string{"omit", "late", "dup", "empty", "tagonly", "wrongtag", "short", "long", "zero", "ger", "allff", "wrong", "latewrong", "thenlatewrong", "dupwrong"} {
 					g = append(g, Deviation{z, fmt.Sprintf("share:%d", r), v})
 				}
-				for _, v := range []string{"omit", "late", "dup", "short", "long", "zero", "ger", "wrong", "badcomplainer", "othercomplainer"} {
+				for _, v := range []string{"omit", "late", "dup", "short", "long", "zero", "ger", "wrong", "badcomplainer", "othercomplainer", "latewrong", "dupwrong", "wrongthenright"} {
 					g = append(g, Deviation{z, fmt.Sprintf("ans:%d", r), v})
 				}
 				for k := 1; k <= 3; k++ {
